@@ -24,6 +24,10 @@ type C11Case struct {
 	// More: earlier values of a multi-valued option (repeated occurrences, several
 	// default tags, or an env list split on ","); Value is the last one
 	More []string `json:"more,omitempty"`
+	// OptVal: the option is declared optional:"yes" with this optional-value;
+	// the values are still given attached (--opt=value), so they, not the
+	// optional value, are what the command line denotes
+	OptVal *string `json:"optval,omitempty"`
 }
 
 var _ = Register("C11", func() interface{} { return new(C11Case) }, func(c interface{}) string { return c11Oracle(c.(*C11Case)) })
@@ -206,6 +210,13 @@ func genC11(t *rapid.T) *C11Case {
 	if k.IsFunc() || (k == KTri && c.Via == "default") {
 		c.Via = "arg"
 	}
+	if c.Via == "arg" && rapid.IntRange(0, 6).Draw(t, "optionalArg") == 0 {
+		ov := genValidText(t, k, c.Base)
+		if len(c.Choices) > 0 {
+			ov = c.Choices[0]
+		}
+		c.OptVal = &ov
+	}
 	if c.Via == "env" {
 		c.Value = envSafe(c.Value)
 		for i := range c.More {
@@ -231,8 +242,17 @@ func c11Decl(c *C11Case) *Decl {
 			o.EnvDelim = ","
 		}
 	}
-	d := &Decl{Root: Cmd{ID: "root", Name: "app"}}
-	d.Root.G.Groups = []Group{{Field: "G0", Desc: "Application Options", Options: []Opt{o}}}
+	if c.OptVal != nil {
+		o.Optional = "yes"
+		o.OptVals = []string{*c.OptVal}
+	}
+	// bystanders declared before and after the option, in a nested group and in
+	// a sub-command: a diagnostic must name the option at fault, not one of them
+	d := &Decl{Root: Cmd{ID: "root", Name: "app", SubOpt: true}}
+	d.Root.G.Groups = []Group{{Field: "G0", Desc: "Application Options",
+		Options: []Opt{{ID: "b1", Field: "Before", Kind: KString, Short: "a", Long: "aaa", Defaults: []string{"x"}}, o, {ID: "b2", Field: "After", Kind: KInt, Short: "z", Long: "zzz", Defaults: []string{"1"}}},
+		Groups:  []Group{{Field: "G1", Desc: "Nested", Options: []Opt{{ID: "b3", Field: "Nested", Kind: KFloat64, Long: "nnn"}}}}}}
+	d.Root.Cmds = []Cmd{{ID: "c1", Name: "sub", Field: "Sub", ByTag: true, G: Group{Options: []Opt{{ID: "b4", Field: "InCmd", Kind: KString, Long: "ccc", Defaults: []string{"y"}}}}}}
 	return d
 }
 
@@ -252,7 +272,7 @@ func c11Oracle(c *C11Case) string {
 	}
 	var rr *RealResult
 	if c.LateChoices && len(c.Choices) > 0 {
-		d.Root.G.Groups[0].Options[0].Choices = nil
+		d.Root.G.Groups[0].Options[1].Choices = nil
 		rr = &RealResult{}
 		rr.Panic = Safely(func() {
 			b := Build(d)
@@ -305,6 +325,9 @@ func c11Oracle(c *C11Case) string {
 		what = fmt.Sprintf("%s base=%d choices=%q values=%q via=%s", c.Kind, c.Base, c.Choices, texts, c.Via)
 	}
 	st.Label("via " + c.Via)
+	if c.OptVal != nil {
+		st.Label("optional argument, value attached")
+	}
 	// non-trivial classification
 	nt := len(c.Choices) > 0 || strings.ContainsAny(c.Value, "+-_ eExXpP.") || strings.HasPrefix(c.Value, "0") || c.Value == ""
 	if _, isInt := intBits[c.Kind.Elem()]; isInt && !c.Kind.IsMap() {
@@ -322,7 +345,7 @@ func c11Oracle(c *C11Case) string {
 		st.NonTrivial(what, map[string]interface{}{"kind": c.Kind, "base": c.Base, "choices": c.Choices, "value": c.Value, "via": c.Via})
 	}
 	fe := FlagsErr(rr.Err)
-	nameOK := func(msg string) bool { return strings.Contains(msg, "--opt") || strings.Contains(msg, "-o") }
+	nameOK := func(msg string) bool { return strings.Contains(msg, "-o, --opt") }
 	if !member {
 		st.Label("verdict: not among choices")
 		if rr.Err == nil {
